@@ -78,13 +78,18 @@ def gen_case(ch: Chooser, excl=()):
             if f["path"].endswith(".f90") and ch.bool(1, 6):
                 f["path"] = f["path"][:-4] + ch.choice([".F90", ".F95", ".F03", ".F08", ".f95", ".f03", ".f08"])
                 upper = True
+    bom = "byte_order_mark" not in excl and ch.bool(1, 8)
     files1, used1 = render.render_project(proj, ch)
     files2, used2 = render.render_project(proj, ch)
+    if bom:
+        # a UTF-8 byte order mark in front of the first file (editors on Windows write one; gfortran skips it)
+        first = sorted(files1)[0]
+        files1[first] = "\ufeff" + files1[first]
     kinds, rich, nested = features_of(proj)
     ndiff = sum(1 for k in set(used1) | set(used2) if used1.get(k) != used2.get(k))
     return {
         "files": files1, "files2": files2, "expected": model.canon_project(proj),
-        "classes": sorted(kinds) + sorted(f"sty:{k}" for k in set(used1) | set(used2)) + (["ext:other"] if upper else []),
+        "classes": sorted(kinds) + sorted(f"sty:{k}" for k in set(used1) | set(used2)) + (["ext:other"] if upper else []) + (["byte-order-mark"] if bom else []),
         "nontrivial": bool(rich and nested and ndiff >= 3),
     }
 
